@@ -17,7 +17,7 @@ func init() {
 		ruleDef{"C02.R6", c02r6},
 		ruleDef{"C02.R7", c02r7},
 		// the fingerprint's input is the captured record: the capture rules of C04 and the record wiring of C06.R4 are necessary conditions here too
-		ruleDef{"C04.R2", c04r2}, ruleDef{"C04.R3", c04r3}, ruleDef{"C04.R4", c04r4}, ruleDef{"C04.R5", c04r5}, ruleDef{"C06.R4", c06r4},
+		ruleDef{"C04.R2", c04r2}, ruleDef{"C04.R3", c04r3}, ruleDef{"C04.R4", c04r4}, ruleDef{"C04.R5", c04r5}, ruleDef{"C06.R1", c06r1}, ruleDef{"C06.R4", c06r4},
 		// "every forwarded request carries the header": the hook visits every injector, sets what it computes for this request, and is the proxy's Rewrite hook
 		ruleDef{"C05.R1", c05r1}, ruleDef{"C05.R3", c05r3}, ruleDef{"C05.R4", c05r4},
 	)
